@@ -22,6 +22,7 @@ type TimingCfg struct {
 	Script      []bool // per attempt: succeeds?
 	Upper       bool   // upper-bound clauses apply (long waits)
 	CancelAfter int    // cancel 20ms after the exit of this attempt (0: never)
+	Dur         int    // every failing attempt takes this long (ms): the wait counts from its END
 }
 
 func (c TimingCfg) toJSON() map[string]any {
@@ -29,11 +30,11 @@ func (c TimingCfg) toJSON() map[string]any {
 	for _, b := range c.Script {
 		sc = append(sc, b)
 	}
-	return map[string]any{"w": c.W, "N": c.N, "kind": c.Kind, "n": c.Items, "c": c.C, "script": sc, "upper": c.Upper, "cancelafter": c.CancelAfter}
+	return map[string]any{"w": c.W, "N": c.N, "kind": c.Kind, "n": c.Items, "c": c.C, "script": sc, "upper": c.Upper, "cancelafter": c.CancelAfter, "dur": c.Dur}
 }
 
 func parseTimingCfg(m map[string]any) TimingCfg {
-	c := TimingCfg{W: asInt(m["w"]), N: asInt(m["N"]), Kind: asStr(m["kind"]), Items: asInt(m["n"]), C: asInt(m["c"]), Upper: asBool(m["upper"]), CancelAfter: asInt(m["cancelafter"])}
+	c := TimingCfg{W: asInt(m["w"]), N: asInt(m["N"]), Kind: asStr(m["kind"]), Items: asInt(m["n"]), C: asInt(m["c"]), Upper: asBool(m["upper"]), CancelAfter: asInt(m["cancelafter"]), Dur: asInt(m["dur"])}
 	for _, b := range asList(m["script"]) {
 		c.Script = append(c.Script, asBool(b))
 	}
@@ -79,6 +80,9 @@ func (t *timingRun) exec(p int) (any, error) {
 	k := t.att[p]
 	t.mu.Unlock()
 	ok := k-1 < len(t.cfg.Script) && t.cfg.Script[k-1]
+	if !ok && t.cfg.Dur > 0 {
+		time.Sleep(time.Duration(t.cfg.Dur) * time.Millisecond)
+	}
 	if t.cfg.CancelAfter == k {
 		time.AfterFunc(20*time.Millisecond, func() {
 			t.log(Event{"ev": "cancel", "t": t.us()})
@@ -178,6 +182,16 @@ func init() {
 					}
 					cfgs = append(cfgs, c)
 				}
+			}
+		}
+		// T1 again with slow failing attempts: the wait is measured from the END of the failed attempt
+		for _, k := range kinds {
+			for _, w := range []int{5, 20} {
+				c := TimingCfg{W: w, N: 3, Kind: k, Script: []bool{false, false, true}, Dur: w + w/2}
+				if k == "batch" {
+					c.Items, c.C = 2, []int{0, 2}[w%2]
+				}
+				cfgs = append(cfgs, c)
 			}
 		}
 		// T2: a long wait makes an unwanted wait before the first / after the last attempt visible
